@@ -35,7 +35,8 @@ class Focus:
     each variant (ranges); items: items per attribute; names: restrict attribute paths to `darling` (True) or leave them symbolic"""
 
     def __init__(self, tag, body=("Struct",), style=("Named",), nf=(0, 1), nv=(0, 1), cattrs=(0, 0), fattrs=(0, 0), vattrs=(0, 0), items=(0, 1), only_darling=True,
-                 field_names=None, generics=(0, 0), simple=False, item_names=None):
+                 field_names=None, generics=(0, 0), simple=False, item_names=None, where_clause=False):
+        self.where_clause = where_clause  # allow a (symbolic, uninspected) where clause on the receiver
         self.item_names = item_names      # restrict the names of first-level attribute items to this list (None: unbounded strings)
         self.simple = simple      # option values restricted to string / bool / int literals and paths (used when several items are symbolic)
         self.tag = tag
@@ -123,6 +124,8 @@ class Pol(syn_models.SynPolicy):
             return [0]
         if n == "syn::GenericParam":
             return [i for i, v in enumerate(t.adt["variants"]) if v["name"] == "Type"]
+        if nm.endswith(".where_clause") and f.where_clause:
+            return [0, 1]
         if nm.endswith(".where_clause") or nm.endswith(".discriminant") or nm.endswith(".default") and "params" in nm:
             return [0]
         if ".named[" in nm and nm.endswith("].ident"):
@@ -296,7 +299,9 @@ class Src:
         parts = []
         for i in range(n):
             a = self.attrs("%s[%d].attrs" % (lst, i))
-            parts.append("%s%s: u8" % (a, names[i]) if d == 0 else "%su8" % a)
+            tf = (self.l.extra.get("sfacts") or {}).get("%s[%d].ty.Path.0.path.segments[0].ident.sym" % (lst, i))
+            ty = tf[1] if (tf and tf != "complex" and tf[0] == "eq" and tf[1] in ("T", "U")) else "u8"      # a type parameter the path compared with, else a plain type
+            parts.append("%s%s: %s" % (a, names[i], ty) if d == 0 else "%s%s" % (a, ty))
         return " { %s }" % ", ".join(parts) if d == 0 else "(%s)" % ", ".join(parts)
 
     def item_source(self, field_names):
